@@ -47,6 +47,25 @@ def _edge_forms(f: Func) -> Dict[str, str]:
         forms["%s[0].%s" % (lst, side)] = "first.%s" % side
         for ln in last_names:
             forms["%s[%s].%s" % (lst, ln, side)] = "last.%s" % side
+    # local aliases of the first / last bin (`first = lst[0]`, `first, last = lst[0], lst[-1]`); a pd.Interval is
+    # immutable, so an alias is a snapshot of the slot at the line where it is taken
+    forms["__alias__"] = {}
+    for n in walk_no_nested(f.node):
+        if not isinstance(n, ast.Assign):
+            continue
+        pairs = []
+        if isinstance(n.targets[0], ast.Name):
+            pairs = [(n.targets[0], n.value)]
+        elif isinstance(n.targets[0], ast.Tuple) and isinstance(n.value, ast.Tuple) and len(n.targets[0].elts) == len(n.value.elts):
+            pairs = list(zip(n.targets[0].elts, n.value.elts))
+        for t, v in pairs:
+            if not isinstance(t, ast.Name):
+                continue
+            which = "first" if norm(v) == "%s[0]" % lst else "last" if norm(v) in {"%s[%s]" % (lst, ln) for ln in last_names} else None
+            if which:
+                for side in ("left", "right"):
+                    forms["%s.%s" % (t.id, side)] = "%s.%s" % (which, side)
+                forms["__alias__"][t.id] = (which, n.lineno)
     forms["__list__"] = lst
     return forms
 
@@ -59,13 +78,15 @@ def _canon(e: ast.AST, forms: Dict[str, str], rng: str) -> str:
         return "range.low"
     if t == "%s[1]" % rng:
         return "range.high"
+    if t.split(".")[0] in ("first", "last", "range"):
+        return "?" + t  # a local that merely carries one of the canonical names is not that edge
     return t
 
 
 def r20_1(repo: Repo) -> RuleResult:
     """A gap-free, non-overlapping partition of the absolute range needs the added or widened outer bins to share
     their inner edge with the bins learned from the data and to end at the range limits."""
-    rr = RuleResult("R20.1", "outlier bins / widened outer bins meet the learned bins edge to edge and end at the absolute range", floor=4)
+    rr = RuleResult("R20.1", "outlier bins / widened outer bins meet the learned bins edge to edge and end at the absolute range", floor=5)
     for fn, mode in (("add_outier_bins", "add"), ("expand_boundaries", "widen")):
         f = repo.func(VEC, fn)
         rng = f.params[1]
@@ -107,6 +128,25 @@ def r20_1(repo: Repo) -> RuleResult:
                     okp = False
             (rr.ok if okp else rr.bad)(f, "%s: positions" % fn, "the widened bins replace the first and the last bin" if okp else
                                        "a widened bin is not stored over the bin it widens: a bin is lost or duplicated", f.node.lineno)
+            # freshness: with a single learned bin the first and the last bin are one slot, so the upper widening must
+            # start from what the lower widening stored there; an alias taken before a store into the list and read
+            # after it still holds the bin as it was
+            stores = sorted(n.lineno for n in walk_no_nested(f.node) if isinstance(n, ast.Assign) and isinstance(n.targets[0], ast.Subscript)
+                            and norm(n.targets[0].value) == lst)
+            stale = []
+            for call, guard in calls:
+                for x in ast.walk(call):
+                    if isinstance(x, ast.Name) and x.id in forms["__alias__"]:
+                        taken = forms["__alias__"][x.id][1]
+                        if any(taken < s_ < call.lineno for s_ in stores):
+                            stale.append((x.id, taken, call.lineno))
+            if stale:
+                a, t0, t1 = stale[0]
+                rr.bad(f, "%s: freshness" % fn, "`%s` was read from the list at line %d, before a widened bin is stored into the list, and is used at line %d "
+                       "for the other widening: when a single bin was learned both ends are one slot and the first widening is overwritten "
+                       "(the bins no longer reach that range limit)" % (a, t0, t1), t1)
+            else:
+                rr.ok(f, "%s: freshness" % fn, "each widening reads the list as the previous one left it", f.node.lineno)
         if mode == "add":
             ins = [n for n in walk_no_nested(f.node) if isinstance(n, ast.Call) and norm(n.func) == "%s.insert" % lst]
             app = [n for n in walk_no_nested(f.node) if isinstance(n, ast.Call) and norm(n.func) == "%s.append" % lst]
